@@ -130,8 +130,9 @@ CHECKS = {
         "select_marker_genes_v2 / _run_selection is replayed through the model (every step legal, finished exactly at the end; mutilated sequences must be rejected) and census, "
         "final utility array and statistics compared; select_all_markers / create_marker_gene_lookup_from_ref_list over workers 1..4 x behemoth cut-offs {0,1,1e9}; independent census.",
    note="Every genes_at_a_time >= 1 (Model/SelectionK.v: argsort only when a slot was newly filled, k pops with nothing recomputed, breaks only between batches): c12_batch_one_is_step, c12_batch_no_duplicates, c12_batch_coverage, c12_batch_spec_holds, "
-        "c12_batch_trace_legal, c12_batch_invariant_preserved, c12_batch_head_is_marker, c12_batch_terminates, c12_batch_iterations_bounded, c12_batch_no_raise_when_enough_genes, c12_batch_completes_only_with_enough_genes; "
-        "for k >= 2 the clause 'marks a pair of the parent' and totality are refuted (c12_batch_in_query_and_marker_refuted, c12_batch_returns_refuted_empty_list / _chosen_twice: findings F23-F25, see known_findings.json for their status). np.argsort tie order is an input (trace replay); the coverage theorem's hypothesis (no gene both ways) is checked on every generated table and shown "
+        "c12_batch_trace_legal (a batch has 1..k genes, each of positive and maximal utility; shorter than k only when nothing useful is left), c12_batch_invariant_preserved, c12_batch_terminates, c12_batch_iterations_bounded, "
+        "c12_batch_length_exact, c12_batch_genes_are_markers, c12_batch_full_invariant_preserved; the model first showed that for k >= 2 the real loop selected genes marking no pair of the parent and could raise IndexError / RuntimeError on valid tables (findings F23-F25): "
+        "repaired in /repo (0bb86f4: a batch stops early when no useful gene is left), and the three refutations became the positive c12_batch_in_query_and_marker, c12_batch_never_raises, c12_batch_full_spec (spec_c12 on every completed run, every k). np.argsort tie order is an input (trace replay); the coverage theorem's hypothesis (no gene both ways) is checked on every generated table and shown "
         "necessary by an Example; several reference files, parent_list and drop_level not exercised.",
    technique="Coq proof of hand-written Gallina model + trace-refinement correspondence check (choice sequences of the real code replayed through the extracted model)", ref="DESIGN.md section 7 C12"),
  'C13': dict(
@@ -285,7 +286,7 @@ m = {
               'serves_properties': [c['property_id'] for c in checks],
               'kind_free_text': 'Coq 8.16.1 development (Model/Proofs/Props), extracted to OCaml, differential harness in Python against /repo/src'}],
  'checks': checks,
- 'notes': 'fix: commits in /repo: 96b10f0 (F11), df833cb (F1), 2b803dd (F2 family), ce0265d (F3), e33b45d (F8), 90f7980 (F17), 70038ee (F9 F9c F9d), 05db7b2 (F7), 9a355c6 (F19c04). Known findings: /verif/known_findings.json.',
+ 'notes': 'fix: commits in /repo: 96b10f0 (F11), df833cb (F1), 2b803dd (F2 family), ce0265d (F3), e33b45d (F8), 90f7980 (F17), 70038ee (F9 F9c F9d), 05db7b2 (F7), 9a355c6 (F19c04), 0bb86f4 (F23 F24 F25). Known findings: /verif/known_findings.json.',
  'not_applicable': na,
 }
 (ROOT / 'MANIFEST.json').write_text(json.dumps(m, indent=1) + '\n')
